@@ -1,7 +1,546 @@
-//! C26 — not implemented yet (see DESIGN.md section 4).
-use kit::Run;
-use serde_json::Value;
+//! C26 — the network host allow-list is enforced on every request (initial request and every redirect hop).
+//!
+//! S-env / S-inp, level model_checking. The real `RestrictedResolver` (public) is driven over a recording
+//! transport, alone and inside the SDK's redirect follower (hook `verif_hooks::net::redirect_resolver_*`,
+//! stacked exactly as `Context::build_default_*_resolver` documents it: allow-list INSIDE the follower), plus a
+//! small sub-space through the real `Context::resolver()` stack over loopback ports nobody listens on.
+//!
+//! Enumerated exhaustively: every (pattern list of size <= 2, ordered) x every URI of the grammar, sync and async;
+//! every redirect chain of <= 3 hops over a URI alphabet x every pattern list of size <= 2 of a reduced pattern set.
+//!
+//! Oracle (one-directional, as the property states it): the transport saw a request  =>  the INDEPENDENT matcher
+//! `kit::net::Pat` (written from the documentation of HostPattern / core.allowed_network_hosts, most permissive
+//! reading where the documentation is silent) accepts its URI; a call that is not served ends with UriDisallowed.
+//!
+//! Mutants caught (tools/mutant_run.sh D <patch> C26 quick):
+//!   C26-wildcard-no-dot-boundary.diff  (wildcard match without the '.' boundary test)
+//!   C26-port-ignored.diff              (port comparison dropped)
 
-pub fn run(_run: &Run, _replay: Option<&Value>) {
-    kit::ev::machinery("C26: check not implemented");
+use std::sync::Arc;
+
+use c2pa::http::{
+    restricted::{HostPattern, RestrictedResolver},
+    AsyncHttpResolver, HttpResolverError, SyncHttpResolver,
+};
+use c2pa::verif_hooks::net as hooks;
+use kit::{
+    net::{self, Answer, Pat, Transport},
+    par, Run,
+};
+use serde_json::{json, Value};
+
+// ---------------------------------------------------------------------------------------------
+// grammars
+// ---------------------------------------------------------------------------------------------
+
+fn hosts(thorough: bool) -> Vec<&'static str> {
+    let mut v = vec![
+        "a.com",
+        "A.CoM",
+        "sub.a.com",
+        "xa.com",
+        "a.com.",
+        "a.com.evil.org",
+        "evil.org",
+        ".a.com",
+        "1.2.3.4",
+        "[::1]",
+        "xn--bcher-kva.example",
+    ];
+    if thorough {
+        v.extend(["x.sub.a.com", "sub.A.com.", "a.comx", "1.2.3.4.5", "[::ffff:1.2.3.4]", "com"]);
+    }
+    v
+}
+
+fn uris(thorough: bool) -> Vec<String> {
+    let mut v = vec![];
+    for scheme in ["http", "https"] {
+        for userinfo in ["", "a.com@", "a.com:80@"] {
+            for host in hosts(thorough) {
+                for port in ["", ":80", ":443", ":8080"] {
+                    if userinfo == "a.com:80@" && !(host == "evil.org" || host == "a.com") {
+                        continue; // userinfo-with-port only on two hosts
+                    }
+                    v.push(format!("{scheme}://{userinfo}{host}{port}/m?x=1"));
+                }
+            }
+        }
+    }
+    // authority-form (scheme-less) URIs, as used by the SDK's own tests
+    for h in ["a.com", "sub.a.com", "a.com:8080", "evil.org", "A.COM:443"] {
+        v.push(h.to_string());
+    }
+    // scheme in upper case, empty port
+    v.push("HTTPS://a.com/m".into());
+    v.push("http://a.com:/m".into());
+    v.push("http://a.com:0080/m".into());
+    v
+}
+
+fn pattern_texts(thorough: bool) -> Vec<String> {
+    let mut v = vec![];
+    let hosts: Vec<&str> = if thorough {
+        vec!["a.com", "A.COM", "*.a.com", "sub.a.com", "1.2.3.4", "[::1]", "*.com", "evil.org", "*.sub.a.com", "a.com.", ""]
+    } else {
+        vec!["a.com", "*.a.com", "sub.a.com", "1.2.3.4", "[::1]", "*.com", ""]
+    };
+    for scheme in ["", "http://", "https://"] {
+        for host in &hosts {
+            for port in ["", ":80", ":443", ":8080"] {
+                if !thorough && port == ":80" && (*host == "1.2.3.4" || *host == "*.com") {
+                    continue;
+                }
+                v.push(format!("{scheme}{host}{port}"));
+            }
+        }
+    }
+    // odd but accepted pattern strings
+    for odd in ["*", "*.", "a.com/", "https:// ", " a.com", "::1", "ftp://a.com", "HTTPS://A.COM:443", "*a.com", "a.*"] {
+        v.push(odd.to_string());
+    }
+    v.sort();
+    v.dedup();
+    v
+}
+
+/// reduced pattern set for the redirect-chain space
+fn chain_patterns(thorough: bool) -> Vec<&'static str> {
+    let mut v = vec![
+        "a.com", "*.a.com", "https://a.com", "a.com:8080", "http://*.a.com", "evil.org", "1.2.3.4", "https://", "*.com", "http://a.com:8080",
+        "sub.a.com", "",
+    ];
+    if thorough {
+        v.extend(["*.org", "http://", "a.com:443", "https://*.a.com:8080", "xa.com", "http://:8080", "[2001:db8::1]", "*.a.com:8080"]);
+    }
+    v
+}
+
+/// Location / start alphabet of the chain space: public hosts only (the SSRF filter is C27's subject), absolute,
+/// path-relative and scheme-relative forms.
+fn chain_uris(thorough: bool) -> Vec<&'static str> {
+    let mut v = vec![
+        "http://a.com/m",
+        "https://a.com/m",
+        "http://sub.a.com/m",
+        "http://xa.com/m",
+        "https://evil.org/m",
+        "http://a.com:8080/m",
+        "http://a.com@evil.org/m",
+        "http://1.2.3.4/m",
+        "/r",
+        "//evil.org/m",
+    ];
+    if thorough {
+        v.extend(["https://sub.a.com:8080/m", "http://A.COM:80/m", "http://a.com./m", "//sub.a.com:8080/m", "?q=2", "https://x.y.a.com/m"]);
+    }
+    v
+}
+
+// ---------------------------------------------------------------------------------------------
+// stacks
+// ---------------------------------------------------------------------------------------------
+
+static CAP: net::KeyCap = net::KeyCap::new(20);
+
+fn host_patterns(list: &[Pat]) -> Vec<HostPattern> {
+    list.iter().map(|p| HostPattern::new(&p.text)).collect()
+}
+
+#[derive(Debug)]
+struct Obs {
+    seen: Vec<String>,
+    result: Result<u16, &'static str>,
+    panic: Option<String>,
+}
+
+fn observe(
+    t: &Arc<Transport>,
+    r: Result<Result<c2pa::http::http::Response<Box<dyn std::io::Read>>, HttpResolverError>, String>,
+) -> Obs {
+    let seen = t.seen().into_iter().map(|s| s.uri).collect();
+    match r {
+        Err(p) => Obs { seen, result: Err("panic"), panic: Some(p) },
+        Ok(Ok(resp)) => Obs { seen, result: Ok(resp.status().as_u16()), panic: None },
+        Ok(Err(e)) => Obs { seen, result: Err(net::err_class(&e)), panic: None },
+    }
+}
+
+/// RestrictedResolver alone.
+fn run_direct(list: &[Pat], uri: &str, is_async: bool) -> Option<Obs> {
+    let t = Transport::new(|_, _| Answer::ok());
+    let res = RestrictedResolver::with_allowed_hosts(t.clone(), host_patterns(list));
+    let req = net::request("GET", uri, &[], vec![])?;
+    let r = par::guard(|| {
+        if is_async {
+            net::block_on(res.http_resolve_async(req))
+        } else {
+            res.http_resolve(req)
+        }
+    });
+    Some(observe(&t, r))
+}
+
+/// The documented default stack: RedirectResolver(RestrictedResolver(transport)). `locs[i]` is the Location served
+/// for the i-th request; after the last one the transport answers 200.
+fn run_chain(list: &[Pat], start: &str, locs: &[&str], is_async: bool) -> Option<Obs> {
+    let locs_owned: Vec<String> = locs.iter().map(|s| s.to_string()).collect();
+    let t = Transport::new(move |i, _| match locs_owned.get(i) {
+        Some(l) => Answer::redirect(302, l),
+        None => Answer::ok(),
+    });
+    let mut restricted = RestrictedResolver::new(t.clone());
+    restricted.set_allowed_hosts(Some(host_patterns(list)));
+    let req = net::request("GET", start, &[], vec![])?;
+    let r = if is_async {
+        let stack = hooks::redirect_resolver_async(restricted, true);
+        par::guard(|| net::block_on(stack.http_resolve_async(req)))
+    } else {
+        let stack = hooks::redirect_resolver_sync(restricted, true);
+        par::guard(|| stack.http_resolve(req))
+    };
+    Some(observe(&t, r))
+}
+
+// ---------------------------------------------------------------------------------------------
+// oracle
+// ---------------------------------------------------------------------------------------------
+
+/// Judge one observation. `expect_requests` = number of requests a fully served call makes.
+fn judge(run: &Run, stack: &str, list: &[Pat], obs: &Obs, case: &Value) -> bool {
+    let owned = list;
+    let mut clean = true;
+    if let Some(p) = &obs.panic {
+        CAP.violation(run, format!("panic stack={stack}"), || format!("panic: {p}"), || case.clone());
+        return false;
+    }
+    for (k, u) in obs.seen.iter().enumerate() {
+        let verdict = match net::split_uri(u) {
+            Some(parts) => net::list_accepts(owned, &parts),
+            None => Err(("no-authority".to_string(), "none".to_string())),
+        };
+        if let Err((mut fail, mut shape)) = verdict {
+            clean = false;
+            // attribution only (never the verdict): which configured pattern does the implementation itself accept this URI under?
+            if let (Ok(parsed), Some(parts)) = (u.parse::<c2pa::http::http::Uri>(), net::split_uri(u)) {
+                if let Some(culprit) = owned.iter().find(|p| HostPattern::new(&p.text).matches(&parsed)) {
+                    if let Err(f) = culprit.accepts(&parts) {
+                        fail = f.join("+");
+                        shape = culprit.shape();
+                    }
+                }
+            }
+            CAP.violation(run, format!("passed-unmatched fail={fail} shape={shape} stack={stack} hop={}", if k == 0 { "initial" } else { "redirect" }), || format!(
+                    "request #{k} to {u} reached the transport although no pattern of {:?} matches it under the documented rules ({fail} of the closest pattern, shape {shape})",
+                    list.iter().map(|p| p.text.as_str()).collect::<Vec<_>>()
+                ), || case.clone());
+        }
+    }
+    match obs.result {
+        Ok(_) => {}
+        Err("UriDisallowed") => {}
+        Err(other) => {
+            clean = false;
+            CAP.violation(run, format!("refused-with-wrong-error err={other} stack={stack}"), || format!("call ended with {other} instead of being served or refused with UriDisallowed; transport saw {:?}", obs.seen), || case.clone());
+        }
+    }
+    clean
+}
+
+fn lists_up_to_2(n: usize) -> Vec<Vec<usize>> {
+    let mut v = vec![vec![]];
+    for i in 0..n {
+        v.push(vec![i]);
+    }
+    for i in 0..n {
+        for j in 0..n {
+            if i != j {
+                v.push(vec![i, j]);
+            }
+        }
+    }
+    v
+}
+
+pub fn run(run: &Run, replay: Option<&Value>) {
+    run.rule(
+        "state = distinct (ordered pattern list of size<=2, start URI, served Location chain, sync|async) configuration executed on the real \
+         resolver stack; transition = one request attempt (served by the transport or refused). non-trivial = configurations in which at \
+         least one pattern of a non-empty list matches some but not all of the URIs involved (so acceptance and refusal both depend on the \
+         matcher), identified by (list, uri/chain).",
+    );
+    run.assume("the HTTP client below the allow-list is replaced by a recording transport; URI parsing is the `http` crate's (trusted base)");
+    run.assume("redirect space: the stack is composed as Context::build_default_*_resolver documents it (RedirectResolver over RestrictedResolver) through the hook; the real Context stack is additionally driven over closed loopback ports (sync)");
+    let thorough = run.tier.is_thorough();
+
+    if let Some(c) = replay {
+        replay_case(run, c);
+        return;
+    }
+
+    // ---- determinism ------------------------------------------------------------------------
+    {
+        let p = Pat::parse("*.a.com");
+        let a = run_direct(std::slice::from_ref(&p), "http://sub.a.com/m", false).map(|o| format!("{o:?}"));
+        let b = run_direct(std::slice::from_ref(&p), "http://sub.a.com/m", false).map(|o| format!("{o:?}"));
+        if a != b || a.is_none() {
+            kit::ev::machinery("C26: baseline case is not deterministic / not constructible");
+        }
+        // the seam is live: an allowed URI is served, a foreign one is refused
+        let o = run_direct(std::slice::from_ref(&p), "http://sub.a.com/m", false).unwrap();
+        let o2 = run_direct(std::slice::from_ref(&p), "http://evil.org/m", false).unwrap();
+        if o.seen.len() != 1 || o.result != Ok(200) || !o2.seen.is_empty() {
+            kit::ev::machinery(format!("C26: seam check failed: {o:?} {o2:?}"));
+        }
+    }
+
+    // ---- space 1: RestrictedResolver x (list <= 2) x URI x {sync, async} ----------------------
+    let pats: Vec<Pat> = pattern_texts(thorough).iter().map(|t| Pat::parse(t)).collect();
+    let uris = uris(thorough);
+    let constructible: Vec<&String> = uris.iter().filter(|u| net::request("GET", u, &[], vec![]).is_some()).collect();
+    let lists = lists_up_to_2(pats.len());
+    run.extra("direct_patterns", json!(pats.len()));
+    run.extra("direct_uris", json!(constructible.len()));
+    run.extra("direct_uris_rejected_by_http_crate", json!(uris.len() - constructible.len()));
+    let total = lists.len() as u64 * constructible.len() as u64 * 2;
+    run.space("RestrictedResolver: ordered pattern lists of size<=2 x URI grammar x {sync,async}", total, true);
+    let counters = std::sync::Mutex::new((0u64, 0u64, 0u64, 0u64)); // served, refused, refused-though-model-accepts, nontrivial
+    par::for_each(&lists, |li| {
+        let list: Vec<Pat> = li.iter().map(|i| pats[*i].clone()).collect();
+        let owned = &list;
+        // how many URIs of the grammar the model accepts for this list
+        let accepted: Vec<bool> = constructible
+            .iter()
+            .map(|u| net::split_uri(u).map(|p| net::list_accepts(owned, &p).is_ok()).unwrap_or(false))
+            .collect();
+        let n_acc = accepted.iter().filter(|b| **b).count();
+        let discriminating = n_acc > 0 && n_acc < accepted.len();
+        let (mut served, mut refused, mut refused_model_accepts) = (0u64, 0u64, 0u64);
+        for (ui, u) in constructible.iter().enumerate() {
+            for is_async in [false, true] {
+                let Some(obs) = run_direct(&list, u, is_async) else { continue };
+                let case = json!({"kind":"direct","patterns": li.iter().map(|i| pats[*i].text.clone()).collect::<Vec<_>>(), "uri": u, "async": is_async});
+                judge(run, "restricted", &list, &obs, &case);
+                if obs.seen.is_empty() {
+                    refused += 1;
+                    if accepted[ui] {
+                        refused_model_accepts += 1;
+                    }
+                } else {
+                    served += 1;
+                }
+            }
+        }
+        let n = constructible.len() as u64 * 2;
+        run.evals(n);
+        run.states(n);
+        run.transitions(n);
+        run.traces(n);
+        let mut g = counters.lock().unwrap();
+        g.0 += served;
+        g.1 += refused;
+        g.2 += refused_model_accepts;
+        if discriminating {
+            g.3 += n;
+        }
+    });
+    {
+        let g = counters.lock().unwrap();
+        run.outcome_n("direct:served", g.0);
+        run.outcome_n("direct:refused-UriDisallowed", g.1 - g.2);
+        run.outcome_n("direct:refused-though-permissive-model-accepts(not demanded)", g.2);
+        run.nontrivial_n(g.3);
+        if run.violation_count() == 0 && (g.0 == 0 || g.1 == 0) {
+            kit::ev::machinery("C26: direct space is vacuous (nothing served or nothing refused)");
+        }
+    }
+    run.sample(json!({"kind":"direct","patterns":["*.a.com"],"uri":"http://sub.a.com/m?x=1","observed": format!("{:?}", run_direct(&[Pat::parse("*.a.com")], "http://sub.a.com/m?x=1", false))}));
+    run.sample(json!({"kind":"direct","patterns":["*.a.com"],"uri":"http://xa.com/m?x=1","observed": format!("{:?}", run_direct(&[Pat::parse("*.a.com")], "http://xa.com/m?x=1", false))}));
+    run.sample(json!({"kind":"direct","patterns":["https://a.com:8080"],"uri":"https://a.com@evil.org:8080/m?x=1","observed": format!("{:?}", run_direct(&[Pat::parse("https://a.com:8080")], "https://a.com@evil.org:8080/m?x=1", false))}));
+
+    // ---- space 2: redirect chains through RedirectResolver(RestrictedResolver(transport)) -----
+    let cpats: Vec<Pat> = chain_patterns(thorough).iter().map(|t| Pat::parse(t)).collect();
+    let curis = chain_uris(thorough);
+    let starts: Vec<&str> = curis.iter().copied().filter(|u| u.contains("://")).collect();
+    let clists = lists_up_to_2(cpats.len());
+    // chains: start x Location sequences of length 0..=3
+    let mut chains: Vec<(usize, Vec<usize>)> = vec![];
+    for s in 0..starts.len() {
+        chains.push((s, vec![]));
+        for a in 0..curis.len() {
+            chains.push((s, vec![a]));
+            for b in 0..curis.len() {
+                chains.push((s, vec![a, b]));
+                for c in 0..curis.len() {
+                    chains.push((s, vec![a, b, c]));
+                }
+            }
+        }
+    }
+    // async doubles only the quick-size core (chains of length <= 2) to keep the budget
+    let total2 = clists.len() as u64 * chains.len() as u64;
+    run.space("redirect stack: ordered pattern lists of size<=2 (reduced set) x start URI x Location chains of length<=3 (sync) + length<=1 (async)", total2, true);
+    run.extra("chain_patterns", json!(cpats.len()));
+    run.extra("chain_uri_alphabet", json!(curis.len()));
+    let c2 = std::sync::Mutex::new((0u64, 0u64, 0u64, 0u64, 0u64)); // fully served, refused at hop0, refused later, hops, nontrivial
+    par::for_each(&clists, |li| {
+        let list: Vec<Pat> = li.iter().map(|i| cpats[*i].clone()).collect();
+        let (mut full, mut r0, mut rl, mut hops, mut nt) = (0u64, 0u64, 0u64, 0u64, 0u64);
+        let mut n = 0u64;
+        for (s, seq) in &chains {
+            let locs: Vec<&str> = seq.iter().map(|i| curis[*i]).collect();
+            for is_async in [false, true] {
+                if is_async && seq.len() > 1 {
+                    continue;
+                }
+                let Some(obs) = run_chain(&list, starts[*s], &locs, is_async) else {
+                    kit::ev::machinery(format!("C26: chain start {} not constructible", starts[*s]))
+                };
+                n += 1;
+                let case = json!({"kind":"chain","patterns": li.iter().map(|i| cpats[*i].text.clone()).collect::<Vec<_>>(), "start": starts[*s], "locations": locs, "async": is_async});
+                judge(run, "redirect+restricted", &list, &obs, &case);
+                hops += obs.seen.len() as u64 + if obs.result.is_err() { 1 } else { 0 };
+                match (&obs.result, obs.seen.len()) {
+                    (Ok(_), k) => {
+                        full += 1;
+                        if k != locs.len() + 1 {
+                            CAP.violation(run, "chain-length-unexpected stack=redirect+restricted", || format!("served call made {k} requests for a chain of {} redirects: {:?}", locs.len(), obs.seen), || case.clone());
+                        }
+                        if k > 1 {
+                            nt += 1;
+                        }
+                    }
+                    (Err(_), 0) => r0 += 1,
+                    (Err(_), _) => {
+                        rl += 1;
+                        nt += 1;
+                    }
+                }
+            }
+        }
+        run.evals(n);
+        run.states(n);
+        run.transitions(hops);
+        run.traces(n);
+        let mut g = c2.lock().unwrap();
+        g.0 += full;
+        g.1 += r0;
+        g.2 += rl;
+        g.3 += hops;
+        g.4 += nt;
+    });
+    {
+        let g = c2.lock().unwrap();
+        run.outcome_n("chain:fully-served", g.0);
+        run.outcome_n("chain:initial-request-refused", g.1);
+        run.outcome_n("chain:refused-at-a-redirect-hop", g.2);
+        run.nontrivial_n(g.4);
+        if run.violation_count() == 0 && (g.0 == 0 || g.2 == 0) {
+            kit::ev::machinery("C26: chain space is vacuous (no chain fully served or none refused at a hop)");
+        }
+    }
+    {
+        let p = Pat::parse("*.a.com");
+        let o = run_chain(std::slice::from_ref(&p), "http://sub.a.com/m", &["/r", "//evil.org/m"], false);
+        run.sample(json!({"kind":"chain","patterns":["*.a.com"],"start":"http://sub.a.com/m","locations":["/r","//evil.org/m"],"observed": format!("{o:?}")}));
+    }
+
+    // ---- space 3: the real Context::resolver() stack over loopback ports nobody listens on -----
+    context_stack_space(run);
+    CAP.report(run);
+}
+
+/// `Context::resolver()` (default stack, real HTTP client) with `core.allowed_network_hosts` set, requests to
+/// 127.0.0.1 / [::1] on ports 1 and 2. A refused connection proves the request passed the allow-list.
+fn context_stack_space(run: &Run) {
+    // precondition: connecting to the probe ports fails immediately
+    let t0 = std::time::Instant::now();
+    let probe = std::net::TcpStream::connect_timeout(&"127.0.0.1:1".parse().unwrap(), std::time::Duration::from_secs(2));
+    if probe.is_ok() || t0.elapsed().as_millis() > 500 {
+        run.assume("context-stack sub-space skipped: 127.0.0.1:1 does not refuse connections immediately in this environment");
+        run.space("Context::resolver() default stack over closed loopback ports", 0, true);
+        return;
+    }
+    let pats = ["127.0.0.1:1", "127.0.0.1", "http://127.0.0.1:1", "https://127.0.0.1:1", "127.0.0.1:2", "*.0.0.1:1", "localhost:1", "[::1]:1", ""];
+    let uris = [
+        "http://127.0.0.1:1/m",
+        "https://127.0.0.1:1/m",
+        "http://127.0.0.1:2/m",
+        "http://[::1]:1/m",
+        "http://x@127.0.0.1:1/m",
+        "http://127.0.0.1:1@127.0.0.1:2/m",
+    ];
+    let mut lists: Vec<Option<Vec<usize>>> = vec![None];
+    lists.extend(lists_up_to_2(pats.len()).into_iter().map(Some));
+    run.space("Context::resolver() default stack (real client) x allowed_network_hosts lists of size<=2 x loopback URIs (sync)", (lists.len() * uris.len()) as u64, true);
+    let served = std::sync::atomic::AtomicU64::new(0);
+    let refused = std::sync::atomic::AtomicU64::new(0);
+    par::for_each(&lists, |l| {
+        let texts: Option<Vec<&str>> = l.as_ref().map(|v| v.iter().map(|i| pats[*i]).collect());
+        let settings = match &texts {
+            None => json!({"core": {}}),
+            Some(t) => json!({"core": {"allowed_network_hosts": t}}),
+        };
+        let ctx = kit::sdk::ctx_with(&[&settings.to_string()]);
+        let resolver = ctx.resolver();
+        let model: Option<Vec<Pat>> = texts.as_ref().map(|t| t.iter().map(|x| Pat::parse(x)).collect());
+        for u in uris {
+            let Some(req) = net::request("GET", u, &[], vec![]) else { continue };
+            let r = par::guard(|| resolver.http_resolve(req));
+            run.eval();
+            run.states(1);
+            run.transitions(1);
+            run.traces(1);
+            let case = json!({"kind":"context","allowed_network_hosts": texts, "uri": u});
+            let class = match &r {
+                Err(_) => "panic",
+                Ok(Ok(_)) => "served",
+                Ok(Err(e)) => net::err_class(e),
+            };
+            let model_ok = match &model {
+                None => true,
+                Some(m) => net::split_uri(u).map(|p| net::list_accepts(m, &p).is_ok()).unwrap_or(false),
+            };
+            if class == "UriDisallowed" {
+                refused.fetch_add(1, std::sync::atomic::Ordering::Relaxed);
+            } else {
+                // anything else means the request was handed to the HTTP client
+                served.fetch_add(1, std::sync::atomic::Ordering::Relaxed);
+                run.nontrivial(format!("ctx/{texts:?}/{u}"));
+                if !model_ok {
+                    CAP.violation(run, "passed-unmatched stack=context-default", || format!("Context::resolver() with allowed_network_hosts={texts:?} handed {u} to the HTTP client (result {class})"), || case);
+                }
+            }
+        }
+    });
+    run.outcome_n("context:handed-to-client(connection refused)", served.load(std::sync::atomic::Ordering::Relaxed));
+    run.outcome_n("context:refused-UriDisallowed", refused.load(std::sync::atomic::Ordering::Relaxed));
+}
+
+fn replay_case(run: &Run, c: &Value) {
+    run.eval();
+    run.states(1);
+    run.transitions(1);
+    let strs = |v: &Value| -> Vec<String> { v.as_array().map(|a| a.iter().filter_map(|x| x.as_str().map(String::from)).collect()).unwrap_or_default() };
+    match c["kind"].as_str() {
+        Some("direct") => {
+            let pats: Vec<Pat> = strs(&c["patterns"]).iter().map(|t| Pat::parse(t)).collect();
+            let list = pats.clone();
+            let uri = c["uri"].as_str().unwrap_or("");
+            let obs = run_direct(&list, uri, c["async"].as_bool().unwrap_or(false)).unwrap_or_else(|| kit::ev::machinery("replay: URI not constructible"));
+            println!("replay direct patterns={:?} uri={uri}: {obs:?}", strs(&c["patterns"]));
+            judge(run, "restricted", &list, &obs, c);
+        }
+        Some("chain") => {
+            let pats: Vec<Pat> = strs(&c["patterns"]).iter().map(|t| Pat::parse(t)).collect();
+            let list = pats.clone();
+            let locs = strs(&c["locations"]);
+            let locs: Vec<&str> = locs.iter().map(|s| s.as_str()).collect();
+            let start = c["start"].as_str().unwrap_or("");
+            let obs = run_chain(&list, start, &locs, c["async"].as_bool().unwrap_or(false)).unwrap_or_else(|| kit::ev::machinery("replay: URI not constructible"));
+            println!("replay chain patterns={:?} start={start} locations={locs:?}: {obs:?}", strs(&c["patterns"]));
+            judge(run, "redirect+restricted", &list, &obs, c);
+        }
+        _ => kit::ev::machinery("replay kind not supported; rerun the tier"),
+    }
 }
